@@ -75,7 +75,7 @@ PROPS = {
     "C01": dict(corpora=["stream_matrix", "stream_faults", "restbind", "httpbody", "restfield"], prefix="C01."),
     "C02": dict(corpora=["stream_matrix", "stream_headers"], prefix="C02."),
     "C03": dict(corpora=["stream_matrix", "stream_errors", "stream_faults", "stream_hostile", "httpbody", "suite"], prefix="C03."),
-    "C04": dict(corpora=["stream_errors", "stream_hostile"], prefix="C04."),
+    "C04": dict(corpora=["stream_errors", "stream_hostile", "stream_faults", "stream_reject"], prefix="C04."),
     "C05": dict(corpora=["stream_headers", "stream_errors", "suite"], prefix="C05."),
     "C06": dict(corpora=["router", "router_wild"], prefix="C06."),
     "C07": dict(corpora=["restbind", "httpbody", "restfield"], prefix="C07."),
